@@ -272,6 +272,30 @@ def step (line : String) : String :=
         | _ => []
       let out := irMergeParams (plist "target") (plist "other") sigma
       (Json.mkObj [("ok", Json.arr (out.map fun (k, p) => Json.arr #[Json.str (String.ofList k), paramToJson p]).toArray)]).compress
+    | .ok "sync_props" =>
+      -- sync_property for each (input location, output location) pair, without wrap / eval
+      let inp := PyAst.annotate (A.nodeOfJson ((j.getObjVal? "input").toOption.getD Json.null))
+      let out0 := PyAst.annotate (A.nodeOfJson ((j.getObjVal? "output").toOption.getD Json.null))
+      let pairs : List (List PyAst.Atom × List PyAst.Atom) := match j.getObjVal? "pairs" with
+        | .ok (Json.arr a) => a.toList.filterMap fun p => match p with
+          | Json.arr #[i, o] => some (A.searchOfJson i, A.searchOfJson o)
+          | _ => none
+        | _ => []
+      let step (acc : Except String PyAst.Node) (pr : List PyAst.Atom × List PyAst.Atom) : Except String PyAst.Node :=
+        match acc with
+        | .error e => .error e
+        | .ok out =>
+          match PyAst.findInAst pr.1 inp with
+          | .raises k => .error k
+          | .none => .error "AssertionError"
+          | .node repl =>
+            let (st, out') := PyAst.visit { search := pr.2, repl := repl } out
+            match st.err with
+            | some e => .error e
+            | none => if st.replaced then .ok out' else .error "AssertionError"
+      (match pairs.foldl step (.ok out0) with
+       | .ok t => (Json.mkObj [("ok", A.nodeToJson t)]).compress
+       | .error e => (Json.mkObj [("raises", Json.str e)]).compress)
     | .ok "conform" =>
       let b (k : String) := (j.getObjValAs? Bool k).toOption.getD false
       let o : Conform.Obs := { fileExists := b "exists", found := b "found", cmpEq := b "cmp_eq",
